@@ -29,7 +29,8 @@ func TestC02Regress(t *testing.T) {
 		// classes (two irregular class tables of 44 KB): Encode of the decoded table put the mark glyph
 		// sets last, beyond 64 KiB, and refused ("GDEF table too large")
 		{"gdef.Read", gdefSetsFirst(22000)},
-		// counts that include the first glyph, value 0: count-1 was computed in 16 bits (65535 entries per four-byte record)
+		// counts that include the first glyph, value 0: count-1 was computed in 16 bits (65535 entries per four-byte record;
+		// the chained format 1 reader stopped after the first such rule through its size check, format 2 and GSUB 4.1 did not)
 		{"gtab.Read/GSUB", zeroComponentLigatures(4000)},
 		{"gtab.Read/GSUB", zeroInputChainRules(4000, 1)},
 		{"gtab.Read/GSUB", zeroInputChainRules(4000, 2)},
